@@ -617,7 +617,7 @@ def spaces(tier, seed):
         cfg = {"nmax": 5, "n_orient": lambda n: 5 if n <= 3 else 3, "full_rng": 2, "default_k": default_k, "ks": (0, default_k), "big_from": 5, "zero_upto": 3,
                "sp_for": lambda n: SPACINGS if n <= 4 else (1.5, 2.0, 3.0), "perm_mode": lambda n: "all" if n <= 4 else "reversed"}
         st_hi, lt_hi, banks, hist_depth = 7, 5, (0, 1, 2, 3), 3
-        e_shapes = [("chain", 1), ("chain", 2), ("chain", 3), ("arms", 1, 1), ("chain", 4), ("arms", 1, 2), ("arms", 2, 1)]
+        e_shapes = [("chain", 1), ("chain", 2), ("chain", 3), ("arms", 1, 1), ("chain", 4), ("arms", 1, 2)]
         e_radii = lambda n: RADII if n <= 3 else (0.5, 1.5)  # noqa: E731
         e_sp = lambda n: SPACINGS if n <= 3 else (1.5, 2.0, 3.0)  # noqa: E731
         e_orients = lambda n: (0, 2) if n <= 2 else (2,)  # noqa: E731
